@@ -332,9 +332,17 @@ class WARCRecorder(object):
 
         journal_filename = self._warc_filename + '-wpullinc'
 
-        with open(journal_filename, 'w') as file:
-            file.write('wpull-journal-version:1\n')
-            file.write('offset:{}\n'.format(before_offset))
+        try:
+            with open(journal_filename, 'w') as file:
+                file.write('wpull-journal-version:1\n')
+                file.write('offset:{}\n'.format(before_offset))
+        except (OSError, IOError):
+            # The archive has not been touched yet: do not leave a (possibly
+            # incomplete) journal behind that would block the next run.
+            if os.path.exists(journal_filename):
+                os.remove(journal_filename)
+
+            raise
 
         try:
             with open_func(self._warc_filename, mode='ab') as out_file:
